@@ -69,7 +69,9 @@ void destroy_replica(World &w, int ri) {
   if (R.twin >= 0 && w.r[R.twin].twin == ri) w.r[R.twin].twin = -1;
   if (R.shm_fd >= 0) close(R.shm_fd);
   if (!R.shm_file.empty()) unlink(R.shm_file.c_str());
+  void *sa = R.adopted ? R.shm_addr : nullptr; size_t sl = R.shm_len;
   R = Replica();
+  if (sa) shm_after_destroy(w, sa, sl);
 }
 
 // generic invariants of C02 between the dump before (B) and after (A) an op on one replica
@@ -182,6 +184,9 @@ struct TopoMachine : Machine {
     al.push_back({"mem_register", 1}); al.push_back({"mem_set", 2}); al.push_back({"mem_query", 1}); al.push_back({"mem_local", 1});
     al.push_back({"kind_register", 2}); al.push_back({"kind_query", 1});
     al.push_back({"diff", 0});   // 23
+    al.push_back({"shm_adopt", 0});   // 24
+    if (prop == "C19") { al[24].w = 7; al[12].w = 3; al[10].w = 1; al[3].w = 4; al[13].w = 2; al[14].w = 2; al[15].w = 1; al[18].w = 2; al[19].w = 2; al[20].w = 1; al[21].w = 2; al[22].w = 1; al[23].w = 1; }
+    if (prop == "C02" || prop == "C12" || prop == "C13" || prop == "C14" || prop == "C15") al[24].w = 1;
     if (prop == "C16") { al[23].w = 14; al[0].w = 3; al[10].w = 1; al[11].w = 1; al[13].w = 2; al[18].w = 1; al[21].w = 1; }
     if (prop == "C02") al[23].w = 1;
     if (prop == "C13") { al[13].w = 10; al[14].w = 8; al[15].w = 4; al[16].w = 8; al[0].w = 5; al[10].w = 2; al[11].w = 2; al[3].w = 0; al[7].w = 3; }
@@ -193,14 +198,15 @@ struct TopoMachine : Machine {
     if (prop == "C05") { al[11].w = 7; al[10].w = 1; al[12].w = 2; }
     if (prop == "C02") { al[10].w = 1; al[11].w = 1; al[12].w = 1; }
     if (prop == "C01") al.clear();
-    for (auto &x : al) { std::string xk = x.k; if (cfg.chance(1, 3) && xk != "restrict" && xk != "dup" && xk != "xml_restart") x.w = 0; }
+    for (auto &x : al) { std::string xk = x.k; if (cfg.chance(1, 3) && xk != "restrict" && xk != "dup" && xk != "xml_restart" && xk != "shm_adopt") x.w = 0; }
     int total = 0; for (auto &x : al) total += x.w;
     int len = al.empty() ? 0 : (int)cfg.range(3, tier == "thorough" ? 40 : 25);
     for (int s = 0; s < len && total; s++) {
       int rr = (int)ops.below(total); const char *k = nullptr; for (auto &x : al) { if (rr < x.w) { k = x.k; break; } rr -= x.w; }
       Op o(k); o.set("r", (int64_t)ops.below(4));
       std::string ks = k;
-      if (ks != "dup" && ks != "xml_restart" && ks != "destroy" && ops.chance(1, 2)) o.set("both", 1);
+      if (ks != "dup" && ks != "xml_restart" && ks != "destroy" && ks != "shm_adopt" && ops.chance(1, 2)) o.set("both", 1);
+      if (ks == "shm_adopt") o.set("off", (int64_t)ops.below(4)).set("fault", (int64_t)ops.below(9)).set("hb", (int64_t)ops.below(1000));
       if (ks.rfind("dist_", 0) == 0 || ks.rfind("mem_", 0) == 0 || ks.rfind("kind_", 0) == 0) o.set("obs", (int64_t)ops.below(2));
       if (ks == "dist_add") o.set("kind", (int64_t)ops.below(10)).set("name", (int64_t)ops.below(4)).set("cf", (int64_t)ops.below(1000)).set("n", ops.chance(1, 5) ? (int64_t)ops.below(7) : 2 + (int64_t)ops.below(5)).set("mix", (int64_t)ops.below(1000)).set("ty", ops.chance(2, 3) ? (int64_t)ops.below(3) : (int64_t)ops.below(8)).setu("vs", ops.next()).set("vm", (int64_t)ops.below(3)).set("vf", (int64_t)ops.below(1000)).set("mf", (int64_t)ops.below(12));
       if (ks == "dist_get") o.set("how", (int64_t)ops.below(4)).set("kf", (int64_t)ops.below(30)).set("ty", ops.chance(2, 3) ? (int64_t)ops.below(3) : (int64_t)ops.below(8)).set("name", (int64_t)ops.below(2)).set("cap", (int64_t)ops.below(1000));
@@ -249,14 +255,14 @@ struct TopoMachine : Machine {
     for (const Op &o : p.ops) {
       r.curop = o.kind; r.curopidx = idx++; r.nops++; steps_reset();
       bool repl_op = o.kind == "dup" || o.kind == "xml_restart" || o.kind == "destroy" || o.kind == "shm_adopt";
-      if (repl_op) { if (!ops_repl(w, o)) r.ev("unknown op %s", o.kind.c_str()); continue; }
+      if (repl_op) { if (!ops_repl(w, o) && !ops_shm(w, o)) r.ev("unknown op %s", o.kind.c_str()); continue; }
       int ri = w.pick(o.u("r")); if (ri < 0) break;
       exec_on(w, o, ri);
       if (!w.r[ri].live()) continue;
       int tj = w.r[ri].twin;
       if (tj >= 0 && w.r[tj].live() && w.r[tj].twin == ri) {
         Replica &A = w.r[ri], &T = w.r[tj]; int kind = A.twin_kind; const char *own = kind == 1 ? "C12" : kind == 2 ? "C05" : "C19";
-        if (o.u("both")) {
+        if (o.u("both") && kind != 3) {
           // lock-step: the same op on the twin must keep the two replicas equivalent (catches lost hidden state such as next_gp_index or dont_merge)
           Op o2 = o; int kth = 0; for (int i = 0; i < tj; i++) kth += w.r[i].live(); for (auto &kv : o2.kv) if (kv.first == "r") kv.second = std::to_string(kth);
           exec_on(w, o2, tj);
